@@ -15,7 +15,7 @@
    The full statement is FALSE for the code as it stands: the export builds a python dict keyed by
    column name, so a property called "id" (or "source"/"target", or "p_0" next to a 2-D "p")
    silently replaces another column.  Open finding C17/name-collision; hence _refuted + _partial. *)
-From Geff Require Import Base Table TableLemmas.
+From Geff Require Import Base Table TableLemmas Csv CsvLemmas.
 Open Scope list_scope.
 
 Definition C17_full : Prop := forall g, wf_graph g -> frames_ok g.
@@ -77,8 +77,10 @@ Theorem C17_csv_keeps_existing : forall s g,
 Proof. exact csv_keeps_existing. Qed.
 Print Assumptions C17_csv_keeps_existing.
 
-(* a successful call leaves exactly the two exported tables (reading them back gives the same ids
-   and values); with overwrite the call always succeeds *)
+(* DEFINITIONAL (fx2011): in Table.v a file holds a table, so this only says which tables are handed to
+   to_csv -- the frames of geff_to_dataframes -- and that overwrite = true cannot fail.  It says NOTHING
+   about the CSV text or about reading it back: that clause of the property is the business of the
+   C17_csv_* theorems over Csv.v at the end of this file. *)
 Theorem C17_csv_writes : forall s g ov,
   let r := geff_to_csv s g ov in
   (snd r = Ok tt -> fs_nodes (fst r) = Some (fst (node_frame g)) /\ fs_edges (fst r) = Some (fst (edge_frame g))) /\
@@ -116,4 +118,307 @@ Proof.
   split; [|vm_compute; repeat split].
   split; repeat constructor; try (eexists; reflexivity);
     intros m H; inversion H; subst; reflexivity.
+Qed.
+
+
+(* ====================================================================================================
+   fx2011 -- the CSV TEXT and pandas.read_csv WITH DEFAULT ARGUMENTS (Csv.v).
+
+   Vocabulary.  A frame is a list of named columns of typed cells (TInt z | TBool b | TFloat literal |
+   TStr s | TNA); [to_csv_text t] is the file DataFrame.to_csv(path) writes (header with an empty cell for
+   the row labels, row label + rendered cells per row, csv.QUOTE_MINIMAL, LF line ends), one string.
+   [tokenize] is pandas' C tokenizer for the default dialect, [read_raw] adds the header handling,
+   [decide] the per-column type inference with the default NA tokens, [read_csv_default] the three in a
+   row; [read_column text n] is the column n of pandas.read_csv(path).  A float cell IS the literal numpy
+   prints for it, and a float read back is "the default float parser's value of this text" (RFlit): the
+   two value functions (repr, strtod) are outside the model.  An integer that went through float64 is
+   RFint z' with z' the exactly rounded value (round_f64).
+   [frame_reads_back t] = the property's sentence: default read_csv of the written file shows every column
+   under its name with the same values row by row (an integer may come back as the float of the same
+   value, a missing cell as NaN).
+   The sentence is FALSE for all frames (five open findings, one _refuted theorem per cause); it is proved
+   for the frames that satisfy the boolean [frame_safe].
+   ==================================================================================================== *)
+
+(* --- the text layer --- *)
+(* quoting one field and undoing it (strip the quotes, undouble) is the identity, for every string *)
+Theorem C17_csv_field_quoting : forall s, unquote (quote_min s) = s.
+Proof. exact unquote_quote. Qed.
+Print Assumptions C17_csv_field_quoting.
+
+(* the tokenizer inverts the writer on ANY rows of fields (all characters, any number of rows) provided no
+   line starts with a line break / blank / tab and a carriage return only occurs in fields that are quoted
+   for another reason *)
+Theorem C17_csv_tokenizer_inverts_writer : forall rows, Forall row_ok rows -> tokenize (print_rows rows) = Some rows.
+Proof. exact tokenize_print. Qed.
+Print Assumptions C17_csv_tokenizer_inverts_writer.
+
+(* an integer is written as its decimal numeral and the integer lexer reads the numeral back *)
+Theorem C17_csv_decimal_reads_back : forall z, lex_int (dec_z z) = Some z /\ classify (dec_z z) = LInt z.
+Proof. exact decimal_reads_back. Qed.
+Print Assumptions C17_csv_decimal_reads_back.
+
+(* for every frame with equal-length columns under distinct non-empty names whose fields hold no bare carriage
+   return: the reader sees the row labels under "Unnamed: 0" and then every column under its name with the
+   cell texts exactly as rendered ... *)
+Theorem C17_csv_text_transparent : forall t, wf_frame t -> text_ok t = true ->
+  read_raw (to_csv_text t) =
+    Some (("Unnamed: 0"%string, label_column (nrows t)) :: map (fun c => (fst c, map render (snd c))) t).
+Proof. exact read_raw_written. Qed.
+Print Assumptions C17_csv_text_transparent.
+
+(* ... so default read_csv is the type inference applied column by column to the rendered cells *)
+Theorem C17_csv_read_back_columns : forall t, wf_frame t -> text_ok t = true ->
+  read_csv_default (to_csv_text t) =
+    Some (("Unnamed: 0"%string, decide (label_column (nrows t)))
+          :: map (fun c => (fst c, decide (map render (snd c)))) t).
+Proof. exact read_back_columns. Qed.
+Print Assumptions C17_csv_read_back_columns.
+
+(* --- what each kind of column reads back as (for columns of any length) --- *)
+(* integers without a missing entry, all within int64: int64, the same integers *)
+Theorem C17_csv_int_column : forall cells, cells <> [] ->
+  forallb int_cell cells = true -> existsb is_TNA cells = false ->
+  forallb (cell_in i64_min i64_max) cells = true ->
+  decide (map render cells) = Some (DInt64, map expect_same cells).
+Proof. exact kind_int. Qed.
+Print Assumptions C17_csv_int_column.
+
+(* ... within 0..2^64-1 with one beyond int64: uint64, the same integers *)
+Theorem C17_csv_uint_column : forall cells,
+  forallb int_cell cells = true -> existsb is_TNA cells = false ->
+  forallb (cell_in 0 u64_max) cells = true -> forallb (cell_in i64_min i64_max) cells = false ->
+  decide (map render cells) = Some (DUInt64, map expect_same cells).
+Proof. exact kind_uint. Qed.
+Print Assumptions C17_csv_uint_column.
+
+(* integers within int64 beside a missing entry: float64; every integer goes through a C cast (rounded to 53
+   bits) and -2^63 comes out as NaN; missing entries are NaN *)
+Theorem C17_csv_int_missing_column : forall cells,
+  forallb int_cell cells = true -> existsb is_TNA cells = true ->
+  forallb (cell_in i64_min i64_max) cells = true ->
+  decide (map render cells) = Some (DFloat64, map int_as_float cells).
+Proof. exact kind_int_na. Qed.
+Print Assumptions C17_csv_int_missing_column.
+
+(* ... and up to 2^53 in magnitude the cast is exact *)
+Theorem C17_csv_int_cast_exact : forall z, (- 2 ^ 53 <= z <= 2 ^ 53)%Z ->
+  round_f64 z = z /\ Z.eqb z i64_min = false.
+Proof. exact round_small. Qed.
+Print Assumptions C17_csv_int_cast_exact.
+
+(* unsigned integers with one beyond int64 beside a missing entry: the column comes back as TEXT, the missing
+   cells as empty strings *)
+Theorem C17_csv_uint_missing_column : forall cells,
+  forallb int_cell cells = true -> existsb is_TNA cells = true ->
+  forallb (cell_in 0 u64_max) cells = true -> forallb (cell_in i64_min i64_max) cells = false ->
+  decide (map render cells) = Some (DStr, map (fun c => RStr (render c)) cells).
+Proof. exact kind_uint_na. Qed.
+Print Assumptions C17_csv_uint_missing_column.
+
+(* booleans: bool without a missing entry, else an object column -- the values True / False / NaN either way *)
+Theorem C17_csv_bool_column : forall cells,
+  forallb bool_cell cells = true -> forallb is_TNA cells = false ->
+  decide (map render cells) = Some (if existsb is_TNA cells then DObject else DBool, map expect_same cells).
+Proof. exact kind_bool. Qed.
+Print Assumptions C17_csv_bool_column.
+
+(* floats (literals accepted by the float parser, not integers, not NA tokens): float64, every cell the parser's
+   value of the literal that was written, missing entries (and stored NaNs, which ARE missing cells) NaN *)
+Theorem C17_csv_float_column : forall cells,
+  forallb float_cell cells = true -> forallb is_TNA cells = false -> forallb float_cell_ok cells = true ->
+  decide (map render cells) = Some (DFloat64, map expect_same cells).
+Proof. exact kind_float. Qed.
+Print Assumptions C17_csv_float_column.
+
+(* strings under [str_safe] (no value is an NA token -- the empty string is one --, some value does not look like
+   a number, some value does not look like a boolean, no NUL, no numeral beyond int64): str, verbatim, missing
+   entries NaN *)
+Theorem C17_csv_str_column : forall cells,
+  forallb str_cell cells = true -> str_safe cells = true ->
+  decide (map render cells) = Some (DStr, map expect_same cells).
+Proof. exact kind_str. Qed.
+Print Assumptions C17_csv_str_column.
+
+(* a column in which every entry is missing, whatever its dtype: float64 of NaN *)
+Theorem C17_csv_all_missing_column : forall cells, cells <> [] -> forallb is_TNA cells = true ->
+  decide (map render cells) = Some (DFloat64, map expect_same cells).
+Proof. exact kind_all_na. Qed.
+Print Assumptions C17_csv_all_missing_column.
+
+(* --- the property's sentence --- *)
+Definition C17_csv_full : Prop := csv_full.   (* forall t, wf_frame t -> frame_reads_back t = true *)
+
+(* refuted; one witness per cause follows *)
+Theorem C17_csv_full_refuted : ~ C17_csv_full.
+Proof. exact csv_full_refuted. Qed.
+Print Assumptions C17_csv_full_refuted.
+
+(* for ALL frames (any number of rows and columns) that satisfy the boolean [frame_safe]: default read_csv of the
+   written file shows every column under its name with the same values *)
+Theorem C17_csv_partial : forall t, wf_frame t -> frame_safe t = true -> frame_reads_back t = true.
+Proof. exact csv_partial. Qed.
+Print Assumptions C17_csv_partial.
+
+(* from the stored graph: for ALL typed graphs with well-shaped properties and distinct column names whose two
+   frames are safe, both files read back *)
+Theorem C17_csv_graph_partial : forall g, wf_graph (erase g) -> graph_names_distinct (erase g) = true ->
+  frame_safe (node_tframe g) = true -> frame_safe (edge_tframe g) = true ->
+  frame_reads_back (node_tframe g) = true /\ frame_reads_back (edge_tframe g) = true.
+Proof. exact csv_graph_partial. Qed.
+Print Assumptions C17_csv_graph_partial.
+
+(* the ids: whatever the properties hold (as long as the text layer is transparent: no bare carriage return),
+   the id column of the nodes file reads back as the stored ids -- int64, or uint64 when an id lies beyond
+   2^63-1 -- ... *)
+Theorem C17_csv_node_ids_read_back : forall g, wf_graph (erase g) -> graph_names_distinct (erase g) = true ->
+  text_ok (node_tframe g) = true -> ids_in_range (tg_ids g) = true ->
+  exists d, read_column (fst (csv_texts g)) "id" = Some (Some (d, map RInt (tg_ids g))).
+Proof. exact csv_node_ids_read_back. Qed.
+Print Assumptions C17_csv_node_ids_read_back.
+
+(* ... and so do source and target of the edges file *)
+Theorem C17_csv_edge_ids_read_back : forall g, wf_graph (erase g) -> graph_names_distinct (erase g) = true ->
+  text_ok (edge_tframe g) = true ->
+  ids_in_range (map fst (tg_edges g)) = true -> ids_in_range (map snd (tg_edges g)) = true ->
+  exists d1 d2,
+    read_column (snd (csv_texts g)) "source" = Some (Some (d1, map RInt (map fst (tg_edges g)))) /\
+    read_column (snd (csv_texts g)) "target" = Some (Some (d2, map RInt (map snd (tg_edges g)))).
+Proof. exact csv_edge_ids_read_back. Qed.
+Print Assumptions C17_csv_edge_ids_read_back.
+
+(* --- witnesses (open findings csv-default-read-*, csv-carriage-return-unquoted, csv-nul-truncates-string) --- *)
+(* ids 1,2,3; v = [2^53+1, missing, 7]: v reads back as float64 [2^53, NaN, 7] (ids intact) *)
+Theorem C17_csv_int_missing_refuted :
+  wf_frame w_int_missing /\ frame_reads_back w_int_missing = false /\
+  read_column (to_csv_text w_int_missing) "v" = Some (Some (DFloat64, [RFint (2 ^ 53); RNaN; RFint 7])) /\
+  read_column (to_csv_text w_int_missing) "id" = Some (Some (DInt64, [RInt 1; RInt 2; RInt 3])).
+Proof. exact int_missing_refuted. Qed.
+Print Assumptions C17_csv_int_missing_refuted.
+
+(* v = [-2^63, missing, 7]: [NaN, NaN, 7] *)
+Theorem C17_csv_int_min_refuted :
+  wf_frame w_int_min /\ frame_reads_back w_int_min = false /\
+  read_column (to_csv_text w_int_min) "v" = Some (Some (DFloat64, [RNaN; RNaN; RFint 7])).
+Proof. exact int_min_refuted. Qed.
+Print Assumptions C17_csv_int_min_refuted.
+
+(* u = uint64 [2^63, missing, 1]: a text column, the missing cell an empty string *)
+Theorem C17_csv_uint_missing_refuted :
+  wf_frame w_uint_missing /\ frame_reads_back w_uint_missing = false /\
+  read_column (to_csv_text w_uint_missing) "u" =
+    Some (Some (DStr, [RStr "9223372036854775808"; RStr ""; RStr "1"])).
+Proof. exact uint_missing_refuted. Qed.
+Print Assumptions C17_csv_uint_missing_refuted.
+
+(* strings: "007","1","12" -> int64 7,1,12; "NA" -> NaN; "" -> NaN; "1e3","2","1.5" -> float64; "True","False","true" ->
+   bool; "007", missing, "1" -> float64 7, NaN, 1 *)
+Theorem C17_csv_string_refuted :
+  (wf_frame w_str_007 /\ frame_reads_back w_str_007 = false /\
+   read_column (to_csv_text w_str_007) "s" = Some (Some (DInt64, [RInt 7; RInt 1; RInt 12]))) /\
+  (wf_frame w_str_na /\ frame_reads_back w_str_na = false /\
+   read_column (to_csv_text w_str_na) "s" = Some (Some (DStr, [RNaN; RStr "a"; RStr "b"]))) /\
+  (wf_frame w_str_empty /\ frame_reads_back w_str_empty = false /\
+   read_column (to_csv_text w_str_empty) "s" = Some (Some (DStr, [RNaN; RStr "a"; RStr "b"]))) /\
+  (wf_frame w_str_1e3 /\ frame_reads_back w_str_1e3 = false /\
+   read_column (to_csv_text w_str_1e3) "s" = Some (Some (DFloat64, [RFlit "1e3"; RFlit "2"; RFlit "1.5"]))) /\
+  (wf_frame w_str_true /\ frame_reads_back w_str_true = false /\
+   read_column (to_csv_text w_str_true) "s" = Some (Some (DBool, [RBool true; RBool false; RBool true]))) /\
+  (wf_frame w_str_masked /\ frame_reads_back w_str_masked = false /\
+   read_column (to_csv_text w_str_masked) "s" = Some (Some (DFloat64, [RFint 7; RNaN; RFint 1]))).
+Proof. exact str_refuted. Qed.
+Print Assumptions C17_csv_string_refuted.
+
+(* s = ["a<CR>b","k","m"]: the line is written as 0,1,a<CR>b ; four rows come back and the ids are 1, NaN, 2, 3 *)
+Theorem C17_csv_carriage_return_refuted :
+  wf_frame w_str_cr /\ frame_reads_back w_str_cr = false /\
+  to_csv_text w_str_cr =
+    String.append ",id,s" (String.append (chr 10) (String.append "0,1,a" (String.append (chr 13)
+      (String.append "b" (String.append (chr 10) (String.append "1,2,k" (String.append (chr 10)
+      (String.append "2,3,m" (chr 10))))))))) /\
+  read_column (to_csv_text w_str_cr) "id" = Some (Some (DFloat64, [RFint 1; RNaN; RFint 2; RFint 3])) /\
+  read_column (to_csv_text w_str_cr) "s" = Some (Some (DStr, [RStr "a"; RNaN; RStr "k"; RStr "m"])).
+Proof. exact cr_refuted. Qed.
+Print Assumptions C17_csv_carriage_return_refuted.
+
+(* s = ["a<NUL>b","k","m"]: "a" *)
+Theorem C17_csv_nul_refuted :
+  wf_frame w_str_nul /\ frame_reads_back w_str_nul = false /\
+  read_column (to_csv_text w_str_nul) "s" = Some (Some (DStr, [RStr "a"; RStr "k"; RStr "m"])).
+Proof. exact nul_refuted. Qed.
+Print Assumptions C17_csv_nul_refuted.
+
+(* NOT a finding: a boolean column with a missing entry reads back with its values (object column) *)
+Theorem C17_csv_bool_missing_keeps_values :
+  frame_reads_back w_bool_missing = true /\
+  read_column (to_csv_text w_bool_missing) "b" = Some (Some (DObject, [RBool true; RNaN; RBool true])).
+Proof. exact bool_missing_example. Qed.
+Print Assumptions C17_csv_bool_missing_keeps_values.
+
+(* non-vacuity: a typed graph with uint64 ids beyond 2^63, a masked (3,2) integer property below 2^53, strings with
+   comma / quote / line feed / CR+LF, a float32-style literal, a masked boolean, and edges with a float property:
+   every premise of C17_csv_graph_partial and of the two id theorems holds, and the nodes file is the text shown *)
+Definition C17_csv_example : tgraph :=
+  mkTGraph [18446744073709551615; 9223372036854775808; 5]%Z
+    [mkTProp "w" [3; 2]%nat [TInt 1; TInt 2; TInt 3; TInt 4; TInt (2 ^ 53); TInt (- 6)]%Z (Some [false; true; false]);
+     mkTProp "s" [3]%nat [TStr "x,y"; TStr "q""t"; TStr (String.append "l1" (String.append (chr 13) (String.append (chr 10) "l2")))] None;
+     mkTProp "b" [3; 1]%nat [TBool true; TBool false; TBool true] (Some [false; false; true])]
+    [(5, 18446744073709551615); (9223372036854775808, 5)]%Z
+    [mkTProp "f" [2]%nat [TFloat "0.1"; TFloat "-inf"] None].
+
+Example C17_csv_nonvacuous :
+  wf_graph (erase C17_csv_example) /\ graph_names_distinct (erase C17_csv_example) = true /\
+  frame_safe (node_tframe C17_csv_example) = true /\ frame_safe (edge_tframe C17_csv_example) = true /\
+  ids_in_range (tg_ids C17_csv_example) = true /\
+  ids_in_range (map fst (tg_edges C17_csv_example)) = true /\ ids_in_range (map snd (tg_edges C17_csv_example)) = true /\
+  node_tframe C17_csv_example =
+    [("id", [TInt 18446744073709551615; TInt 9223372036854775808; TInt 5]);
+     ("w_0", [TInt 1; TNA; TInt (2 ^ 53)]); ("w_1", [TInt 2; TNA; TInt (- 6)]);
+     ("s", [TStr "x,y"; TStr "q""t"; TStr (String.append "l1" (String.append (chr 13) (String.append (chr 10) "l2")))]);
+     ("b", [TBool true; TBool false; TNA])]%string%Z /\
+  read_column (fst (csv_texts C17_csv_example)) "id" =
+    Some (Some (DUInt64, [RInt 18446744073709551615; RInt 9223372036854775808; RInt 5]%Z)) /\
+  read_column (fst (csv_texts C17_csv_example)) "w_0" = Some (Some (DFloat64, [RFint 1; RNaN; RFint (2 ^ 53)]%Z)) /\
+  read_column (snd (csv_texts C17_csv_example)) "f" = Some (Some (DFloat64, [RFlit "0.1"; RFlit "-inf"])) /\
+  Forall row_ok (frame_rows (node_tframe C17_csv_example)).
+Proof.
+  split.
+  { split; repeat constructor; try (eexists; reflexivity);
+      intros m H; inversion H; subst; reflexivity. }
+  repeat split; try (vm_compute; reflexivity).
+  apply frame_rows_ok; [discriminate | vm_compute; reflexivity].
+Qed.
+
+(* non-vacuity of the per-kind theorems: one concrete column per theorem, premises and conclusion by computation *)
+Example C17_csv_kinds_nonvacuous :
+  (let c := [TInt (- 2 ^ 63); TInt 0; TInt (2 ^ 63 - 1)]%Z in
+   forallb int_cell c = true /\ existsb is_TNA c = false /\ forallb (cell_in i64_min i64_max) c = true /\
+   decide (map render c) = Some (DInt64, [RInt (- 2 ^ 63); RInt 0; RInt (2 ^ 63 - 1)]%Z)) /\
+  (let c := [TInt (2 ^ 64 - 1); TInt 0]%Z in
+   forallb int_cell c = true /\ existsb is_TNA c = false /\ forallb (cell_in 0 u64_max) c = true /\
+   forallb (cell_in i64_min i64_max) c = false /\
+   decide (map render c) = Some (DUInt64, [RInt (2 ^ 64 - 1); RInt 0]%Z)) /\
+  (let c := [TInt (2 ^ 53 + 1); TNA; TInt (- 2 ^ 53)]%Z in
+   forallb int_cell c = true /\ existsb is_TNA c = true /\ forallb (cell_in i64_min i64_max) c = true /\
+   decide (map render c) = Some (DFloat64, [RFint (2 ^ 53); RNaN; RFint (- 2 ^ 53)]%Z)) /\
+  (let c := [TInt (2 ^ 63); TNA]%Z in
+   forallb int_cell c = true /\ existsb is_TNA c = true /\ forallb (cell_in 0 u64_max) c = true /\
+   forallb (cell_in i64_min i64_max) c = false /\
+   decide (map render c) = Some (DStr, [RStr "9223372036854775808"; RStr ""])) /\
+  (let c := [TBool true; TNA; TBool false] in
+   forallb bool_cell c = true /\ forallb is_TNA c = false /\
+   decide (map render c) = Some (DObject, [RBool true; RNaN; RBool false])) /\
+  (let c := [TFloat "0.1"; TNA; TFloat "1e+300"; TFloat "-inf"; TFloat "3.4028235e+38"] in
+   forallb float_cell c = true /\ forallb is_TNA c = false /\ forallb float_cell_ok c = true /\
+   decide (map render c) = Some (DFloat64, [RFlit "0.1"; RNaN; RFlit "1e+300"; RFlit "-inf"; RFlit "3.4028235e+38"])) /\
+  (let c := [TStr "007"; TStr "x,y"; TNA; TStr "True"] in
+   forallb str_cell c = true /\ str_safe c = true /\
+   decide (map render c) = Some (DStr, [RStr "007"; RStr "x,y"; RNaN; RStr "True"])) /\
+  (let c := [TNA; TNA] in
+   forallb is_TNA c = true /\ decide (map render c) = Some (DFloat64, [RNaN; RNaN])) /\
+  unquote (quote_min "a,""b""") = "a,""b"""%string /\
+  tokenize (print_rows [[""; "id"; "x,y"]; ["0"; "7"; "q""t"]]%string) = Some [[""; "id"; "x,y"]; ["0"; "7"; "q""t"]]%string /\
+  Forall row_ok [[""; "id"; "x,y"]; ["0"; "7"; "q""t"]]%string.
+Proof.
+  repeat split; try (vm_compute; reflexivity); repeat constructor.
 Qed.
